@@ -654,6 +654,13 @@ fn close(a: f64, b: f64, rel: f64, scale: f64) -> bool {
     (a - b).abs() <= rel * (a.abs().max(b.abs()).max(scale))
 }
 
+/// magnitude of the terms that are added and subtracted in the 12-6 law (the result may be tiny by
+/// cancellation; accuracy is relative to this)
+fn lj_terms(sigma: f64, eps: f64, cutoff: Option<f64>, r: f64) -> f64 {
+    let t = |r: f64| 4.0 * eps.abs() * ((sigma / r).powf(12.0).abs() + (sigma / r).powf(6.0).abs());
+    t(r) + cutoff.map_or(0.0, t)
+}
+
 /// C13 single pair: x y s e c|- x y s e c|- <matM>
 fn c13_lj(t: &[&str]) -> Option<String> {
     let mut k = crate::exec::Toks::new(t);
@@ -672,7 +679,7 @@ fn c13_lj(t: &[&str]) -> Option<String> {
     let e = a.energy(&b);
     let want = lj_closed_form(a.sigma, a.epsilon, a.cutoff, r);
     // near the cutoff the truncated law has a kink of size |dE/dr| * rounding(r): scale by the unshifted magnitude
-    let scale = (4.0 * a.epsilon * (a.sigma / r).powf(12.0)).abs().max((4.0 * a.epsilon * (a.sigma / r).powf(6.0)).abs()) * 1e-3;
+    let scale = lj_terms(a.sigma, a.epsilon, a.cutoff, r).max(lj_terms(b.sigma, b.epsilon, b.cutoff, r));
     let at_cutoff = a.cutoff.map_or(false, |c| (r - c).abs() < 1e-9 * c.max(1.0));
     if !at_cutoff && !close(e, want, 1e-9, scale) {
         return Some(format!("ok FAILS energy {:e} but the shifted truncated 12-6 law gives {:e} at r = {:e}", e, want, r));
@@ -723,17 +730,341 @@ fn c13_mol(t: &[&str]) -> Option<String> {
             }
             let v = lj_closed_form(x.sigma, x.epsilon, x.cutoff, r);
             sum += v;
-            mag = mag.max(v.abs());
+            mag += lj_terms(x.sigma, x.epsilon, x.cutoff, r);
         }
     }
-    if !close(e, sum, 1e-9, mag * 1e-3 + 1e-12) {
+    if !close(e, sum, 1e-9, mag) {
         return Some(format!("ok FAILS molecule energy {:e} but the sum over particle pairs is {:e}", e, sum));
+    }
+    Some("ok holds".to_string())
+}
+
+/// C02 shape area against independent exact geometry: <shape>
+/// replies `ok holds`, `ok FAILS …`; the request's predicate is chosen by the caller from the
+/// reply of `c02_classify`.
+fn c02_area(t: &[&str]) -> Option<String> {
+    let mut k = crate::exec::Toks::new(t);
+    let shape = match crate::state::parse_shape(&mut k)? {
+        Ok(s) => s,
+        Err(_) => return Some("ok holds constructor-error".to_string()),
+    };
+    match &shape {
+        AnyShape::Line(l) => {
+            let v = verts(l);
+            let want = geom::shoelace(&v).abs();
+            let got = l.area();
+            if !(got.is_finite()) || (got - want).abs() > 1e-9 * (1.0 + want) {
+                return Some(format!("ok FAILS polygon area {:e} but the shoelace area of its outline is {:e}", got, want));
+            }
+            Some("ok holds".to_string())
+        }
+        AnyShape::Mol(m) => {
+            let d = discs(m);
+            let want = geom::discs_area(&d, false);
+            let triple = if d.len() >= 3 { geom::discs_area(&d, true) } else { 0.0 };
+            let got = m.area();
+            if !got.is_finite() {
+                return Some(format!("ok FAILS disc-union area is {:e} (true area {:e})", got, want));
+            }
+            if (got - want).abs() > 1e-7 * (1.0 + want) {
+                return Some(format!("ok FAILS disc-union area {:e} but the true area of the union is {:e} (common part of all discs: {:e})", got, want, triple));
+            }
+            Some("ok holds".to_string())
+        }
+        AnyShape::LJ(_) => Some("ok holds no-area".to_string()),
+    }
+}
+
+/// does a disc shape have a point common to three discs (the region where the pairwise
+/// inclusion–exclusion formula is known to under-count)?  <shape> -> `ok triple` / `ok simple`
+fn c02_classify(t: &[&str]) -> Option<String> {
+    let mut k = crate::exec::Toks::new(t);
+    match crate::state::parse_shape(&mut k)? {
+        Ok(AnyShape::Mol(m)) => {
+            let d = discs(&m);
+            if d.len() >= 3 && geom::discs_area(&d, true) > 1e-12 {
+                Some("ok triple".to_string())
+            } else {
+                Some("ok simple".to_string())
+            }
+        }
+        _ => Some("ok simple".to_string()),
+    }
+}
+
+/// the Cartesian geometry of a state, computed independently from its parameters:
+/// lattice vectors and, per copy, (linear part 2x2, position)
+struct Geo {
+    a: geom::P2,
+    b: geom::P2,
+    copies: Vec<([f64; 4], geom::P2)>,
+}
+
+fn state_geo(st: &crate::state::AnyState) -> Option<Geo> {
+    let v = match st {
+        crate::state::AnyState::HardLine(s) => serde_json::to_value(s).ok()?,
+        crate::state::AnyState::HardMol(s) => serde_json::to_value(s).ok()?,
+        crate::state::AnyState::LJ(s) => serde_json::to_value(s).ok()?,
+    };
+    let (l, r, ang) = (v["cell"]["length"].as_f64()?, v["cell"]["ratio"].as_f64()?, v["cell"]["angle"].as_f64()?);
+    let a = (l, 0.0);
+    let b = (l * r * ang.cos(), l * r * ang.sin());
+    let mut copies = vec![];
+    for site in v["occupied_sites"].as_array()? {
+        let (x, y, th) = (site["x"].as_f64()?, site["y"].as_f64()?, site["angle"].as_f64()?);
+        let (sn, cs) = th.sin_cos();
+        for sym in site["wyckoff"]["symmetries"].as_array()? {
+            // nalgebra matrices serialise column-major
+            let m: Vec<f64> = sym.as_array()?.iter().map(|x| x.as_f64().unwrap_or(f64::NAN)).collect();
+            let (g00, g10, g01, g11, g02, g12) = (m[0], m[1], m[3], m[4], m[6], m[7]);
+            // fractional position, wrapped into [-1/2, 1/2)
+            let wrapf = |u: f64| {
+                let w = u - (u + 0.5).floor();
+                if w >= 0.5 { w - 1.0 } else { w }
+            };
+            let fx = wrapf(g00 * x + g01 * y + g02);
+            let fy = wrapf(g10 * x + g11 * y + g12);
+            let pos = (fx * a.0 + fy * b.0, fx * a.1 + fy * b.1);
+            let lin = [g00 * cs + g01 * sn, -g00 * sn + g01 * cs, g10 * cs + g11 * sn, -g10 * sn + g11 * cs];
+            copies.push((lin, pos));
+        }
+    }
+    Some(Geo { a, b, copies })
+}
+
+fn placed_discs(items: &[(f64, f64, f64)], lin: &[f64; 4], pos: geom::P2) -> Vec<(f64, f64, f64)> {
+    items.iter().map(|d| (lin[0] * d.0 + lin[1] * d.1 + pos.0, lin[2] * d.0 + lin[3] * d.1 + pos.1, d.2)).collect()
+}
+fn placed_verts(v: &[geom::P2], lin: &[f64; 4], pos: geom::P2) -> Vec<geom::P2> {
+    v.iter().map(|p| (lin[0] * p.0 + lin[1] * p.1 + pos.0, lin[2] * p.0 + lin[3] * p.1 + pos.1)).collect()
+}
+
+/// C01: exhaustive lattice overlap oracle on a hard state: <state>
+fn c01_overlap(t: &[&str]) -> Option<String> {
+    let mut k = crate::exec::Toks::new(t);
+    let st = match crate::state::parse_state(&mut k)? {
+        Ok(s) => s,
+        Err(_) => return Some("ok holds invalid-request".to_string()),
+    };
+    overlap_of_state(&st)
+}
+
+/// run the real optimiser on a hard state, then apply an oracle to the returned state:
+/// <which: overlap|score|symmetry> <cfg> crystal <state>
+fn after_opt(t: &[&str]) -> Option<String> {
+    let which = *t.get(0)?;
+    let mut k = crate::exec::Toks::new(&t[1..]);
+    let cfg = crate::opt::CfgReq::parse(&mut k)?;
+    if k.s()? != "crystal" {
+        return None;
+    }
+    let st = match crate::state::parse_state(&mut k)? {
+        Ok(s) => s,
+        Err(_) => return Some("ok holds invalid-request".to_string()),
+    };
+    if !matches!(crate::state::state_score(&st), Some(x) if x.is_finite()) {
+        return Some("ok holds invalid-input-state".to_string());
+    }
+    let (r, _l, v) = crate::state::run_any(&cfg, st.clone(), false);
+    if r.starts_with("panic") {
+        return Some("ok holds panicked".to_string());
+    }
+    let v = v?;
+    let fin = match &st {
+        crate::state::AnyState::HardLine(_) => crate::state::AnyState::HardLine(serde_json::from_value(v).ok()?),
+        crate::state::AnyState::HardMol(_) => crate::state::AnyState::HardMol(serde_json::from_value(v).ok()?),
+        crate::state::AnyState::LJ(_) => crate::state::AnyState::LJ(serde_json::from_value(v).ok()?),
+    };
+    match which {
+        "overlap" => overlap_of_state(&fin),
+        "score" => score_of_state(&fin),
+        "symmetry" => symmetry_of_state(&fin),
+        _ => None,
+    }
+}
+
+fn overlap_of_state(st: &crate::state::AnyState) -> Option<String> {
+    let st = st.clone();
+    let score = crate::state::state_score(&st);
+    if score.is_none() {
+        return Some("ok holds no-score".to_string());
+    }
+    let geo = state_geo(&st)?;
+    enum G {
+        D(Vec<(f64, f64, f64)>),
+        V(Vec<geom::P2>),
+    }
+    let (g, rad) = match &st {
+        crate::state::AnyState::HardLine(s) => {
+            let v = verts(&s.shape);
+            if !geom::is_convex(&v) {
+                return Some("ok holds not-convex-skipped".to_string());
+            }
+            let r = v.iter().map(|p| geom::norm(*p)).fold(0.0, f64::max);
+            (G::V(v), r)
+        }
+        crate::state::AnyState::HardMol(s) => {
+            let d = discs(&s.shape);
+            let r = d.iter().map(|x| geom::norm((x.0, x.1)) + x.2).fold(0.0, f64::max);
+            (G::D(d), r)
+        }
+        _ => return Some("ok holds not-hard".to_string()),
+    };
+    // shells from the cell heights, with a margin, independent of the code's rule
+    let cross = geom::cross(geo.a, geo.b).abs();
+    let (la, lb) = (geom::norm(geo.a), geom::norm(geo.b));
+    if !(cross > 0.0) {
+        return Some("ok holds degenerate-cell".to_string());
+    }
+    let kn = ((2.0 * rad) / (cross / lb)).ceil() as i64 + 2; // heights: cross/|b| bounds the A-direction count
+    let km = ((2.0 * rad) / (cross / la)).ceil() as i64 + 2;
+    if kn > 60 || km > 60 {
+        return Some("ok holds too-many-shells-skipped".to_string());
+    }
+    let n = geo.copies.len();
+    for i in 0..n {
+        for j in 0..n {
+            for nn in -kn..=kn {
+                for mm in -km..=km {
+                    if i == j && nn == 0 && mm == 0 {
+                        continue;
+                    }
+                    if nn == 0 && mm == 0 && j < i {
+                        continue;
+                    }
+                    let pj = (geo.copies[j].1 .0 + nn as f64 * geo.a.0 + mm as f64 * geo.b.0, geo.copies[j].1 .1 + nn as f64 * geo.a.1 + mm as f64 * geo.b.1);
+                    let pi = geo.copies[i].1;
+                    if geom::norm(geom::sub(pi, pj)) > 2.0 * rad + 1e-6 {
+                        continue;
+                    }
+                    let sep = match &g {
+                        G::D(d) => geom::discs_separation(&placed_discs(d, &geo.copies[i].0, pi), &placed_discs(d, &geo.copies[j].0, pj)),
+                        G::V(v) => geom::sat_separation(&placed_verts(v, &geo.copies[i].0, pi), &placed_verts(v, &geo.copies[j].0, pj)),
+                    };
+                    if sep < -TOL {
+                        return Some(format!("ok FAILS scored {:?} but copy {} and image ({},{}) of copy {} overlap by {:e}", score, i, nn, mm, j, -sep));
+                    }
+                }
+            }
+        }
+    }
+    // C02: the score is N * area / cell area (independent evaluation), and at most 1
+    Some("ok holds".to_string())
+}
+
+/// C02: the score of a valid hard state is N·area/|A×B| with the true shape area, in (0, 1]: <state>
+fn c02_score(t: &[&str]) -> Option<String> {
+    let mut k = crate::exec::Toks::new(t);
+    let st = match crate::state::parse_state(&mut k)? {
+        Ok(s) => s,
+        Err(_) => return Some("ok holds invalid-request".to_string()),
+    };
+    score_of_state(&st)
+}
+
+fn score_of_state(st: &crate::state::AnyState) -> Option<String> {
+    let st = st.clone();
+    let score = match crate::state::state_score(&st) {
+        Some(s) => s,
+        None => return Some("ok holds no-score".to_string()),
+    };
+    let geo = state_geo(&st)?;
+    let area = match &st {
+        crate::state::AnyState::HardLine(s) => geom::shoelace(&verts(&s.shape)).abs(),
+        crate::state::AnyState::HardMol(s) => geom::discs_area(&discs(&s.shape), false),
+        _ => return Some("ok holds not-hard".to_string()),
+    };
+    let cell = geom::cross(geo.a, geo.b).abs();
+    let want = geo.copies.len() as f64 * area / cell;
+    if !(score.is_finite()) || (score - want).abs() > 1e-7 * (1.0 + want) {
+        return Some(format!("ok FAILS score {:e} but copies x true area / cell area = {:e}", score, want));
+    }
+    if score > 1.0 + 1e-9 || !(score > 0.0) {
+        return Some(format!("ok FAILS packing fraction {:e} outside (0, 1]", score));
+    }
+    Some("ok holds".to_string())
+}
+
+/// C04: every Cartesian group operation maps the set of placements onto itself modulo the lattice,
+/// and is an isometry of the current cell: <state>
+fn c04_symmetry(t: &[&str]) -> Option<String> {
+    let mut k = crate::exec::Toks::new(t);
+    let st = match crate::state::parse_state(&mut k)? {
+        Ok(s) => s,
+        Err(_) => return Some("ok holds invalid-request".to_string()),
+    };
+    symmetry_of_state(&st)
+}
+
+fn symmetry_of_state(st: &crate::state::AnyState) -> Option<String> {
+    let st = st.clone();
+    // the real Cartesian placements
+    let cart: Vec<Matrix3<f64>> = match &st {
+        crate::state::AnyState::HardLine(s) => s.cartesian_positions().map(|t| mat_of(&t)).collect(),
+        crate::state::AnyState::HardMol(s) => s.cartesian_positions().map(|t| mat_of(&t)).collect(),
+        crate::state::AnyState::LJ(s) => s.cartesian_positions().map(|t| mat_of(&t)).collect(),
+    };
+    let v = match &st {
+        crate::state::AnyState::HardLine(s) => serde_json::to_value(s).ok()?,
+        crate::state::AnyState::HardMol(s) => serde_json::to_value(s).ok()?,
+        crate::state::AnyState::LJ(s) => serde_json::to_value(s).ok()?,
+    };
+    let gname = v["wallpaper"]["name"].as_str()?.to_string();
+    let (_fam, rops, _c) = reference(&gname)?;
+    let (l, r, ang) = (v["cell"]["length"].as_f64()?, v["cell"]["ratio"].as_f64()?, v["cell"]["angle"].as_f64()?);
+    let a = (l, 0.0);
+    let b = (l * r * ang.cos(), l * r * ang.sin());
+    let det = geom::cross(a, b);
+    if !(det.abs() > 0.0) {
+        return Some("ok holds degenerate-cell".to_string());
+    }
+    if cart.len() != rops.len() {
+        return Some(format!("ok FAILS {} copies for a group of order {}", cart.len(), rops.len()));
+    }
+    let scale = 1.0 + l.abs();
+    for g in rops.iter() {
+        // Cartesian form: C L C^-1 and C t
+        let c = [a.0, b.0, a.1, b.1]; // columns A, B
+        let ci = [b.1 / det, -b.0 / det, -a.1 / det, a.0 / det];
+        let lc = [g[0] * ci[0] + g[1] * ci[2], g[0] * ci[1] + g[1] * ci[3], g[2] * ci[0] + g[3] * ci[2], g[2] * ci[1] + g[3] * ci[3]];
+        let lg = [c[0] * lc[0] + c[1] * lc[2], c[0] * lc[1] + c[1] * lc[3], c[2] * lc[0] + c[3] * lc[2], c[2] * lc[1] + c[3] * lc[3]];
+        let tg = (g[4] * a.0 + g[5] * b.0, g[4] * a.1 + g[5] * b.1);
+        // rigid motion or reflection
+        let orth = (lg[0] * lg[0] + lg[2] * lg[2] - 1.0).abs() + (lg[1] * lg[1] + lg[3] * lg[3] - 1.0).abs() + (lg[0] * lg[1] + lg[2] * lg[3]).abs();
+        if orth > 1e-9 {
+            return Some(format!("ok FAILS the group operation is not a rigid motion of this cell (angle {:e})", ang));
+        }
+        for (i, p) in cart.iter().enumerate() {
+            // image of placement p under the operation
+            let lin = [lg[0] * p[(0, 0)] + lg[1] * p[(1, 0)], lg[0] * p[(0, 1)] + lg[1] * p[(1, 1)], lg[2] * p[(0, 0)] + lg[3] * p[(1, 0)], lg[2] * p[(0, 1)] + lg[3] * p[(1, 1)]];
+            let pos = (lg[0] * p[(0, 2)] + lg[1] * p[(1, 2)] + tg.0, lg[2] * p[(0, 2)] + lg[3] * p[(1, 2)] + tg.1);
+            let found = cart.iter().any(|q| {
+                let dl = (lin[0] - q[(0, 0)]).abs() + (lin[1] - q[(0, 1)]).abs() + (lin[2] - q[(1, 0)]).abs() + (lin[3] - q[(1, 1)]).abs();
+                if dl > 1e-9 {
+                    return false;
+                }
+                // position difference must be a lattice vector
+                let d = (pos.0 - q[(0, 2)], pos.1 - q[(1, 2)]);
+                let fm = (a.0 * d.1 - a.1 * d.0) / det;
+                let fn_ = (d.0 * b.1 - d.1 * b.0) / det;
+                (fn_ - fn_.round()).abs() < 1e-9 * scale && (fm - fm.round()).abs() < 1e-9 * scale
+            });
+            if !found {
+                return Some(format!("ok FAILS the image of copy {} under a group operation is not a copy (modulo the lattice)", i));
+            }
+        }
     }
     Some("ok holds".to_string())
 }
 
 pub fn oracle(t: &[&str]) -> Option<String> {
     match *t.get(0)? {
+        "c02_area" => c02_area(&t[1..]),
+        "c02_classify" => c02_classify(&t[1..]),
+        "c02_score" => c02_score(&t[1..]),
+        "c01_overlap" => c01_overlap(&t[1..]),
+        "c04_symmetry" => c04_symmetry(&t[1..]),
+        "after_opt" => after_opt(&t[1..]),
         "c12_pair" => c12_pair(&t[1..]),
         "c13_lj" => c13_lj(&t[1..]),
         "c13_mol" => c13_mol(&t[1..]),
